@@ -560,6 +560,13 @@ def c08_latch(ctx):
         rr = returns(lt)
         ok = len(st) == 1 and unparse(st[0][2]) == f'self.evaluate({lt.call_params[0].arg})' and len(rr) == 1 and unparse(rr[0].value) == 'self._latched_value'
         ctx.check(ok, 'latch:stores-evaluation', lt.site(), 'latch evaluates the condition once, stores the result and returns the stored result', '; '.join(unparse(s_[0]) for s_ in st))
+    lin_ = base.methods.get('is_lineage_true')
+    if lin_ is not None:
+        # whatever its control flow (recursion up the parents, or a loop), the lineage test reads remembered values only
+        ev = [c for c in ast.walk(lin_.node) if isinstance(c, ast.Call) and isinstance(c.func, ast.Attribute) and c.func.attr in ('evaluate', '_evaluate_condition')]
+        ctx.check(not ev, 'latch:lineage-reads-latched-values', lin_.site(ev[0]) if ev else lin_.site(),
+                  'whether an earlier branch of the chain was selected is read from the value latched when that branch was reached, never re-evaluated',
+                  f'{unparse(ev[0]) if ev else ""}: a #define inside the selected branch changes what the opener evaluates to, and a later #else is selected too')
     cv = base.methods.get('_current_value')
     if cv is not None:
         r0 = resolver(ctx, cv, inline=False)
@@ -579,7 +586,14 @@ def c08_per_file(ctx):
     from rules.c17 import c17_5
     c17_5(ctx)
 
-RULES = [c08_1, c08_2, c08_3, c08_6, c08_7, mute_state, c08_state, c08_latch, c08_openers, c08_numeric, c08_per_file]
+def c08_keyword_spacing(ctx):
+    """A conditional directive is recognised whatever blank follows its keyword (C18.2): an unrecognised `#elif<TAB>..` inside an
+    unselected branch is swallowed silently and the chain selects the wrong branch."""
+    from rules.c18 import c18_2
+    c18_2(ctx)
+
+
+RULES = [c08_1, c08_2, c08_3, c08_6, c08_7, mute_state, c08_state, c08_latch, c08_openers, c08_numeric, c08_per_file, c08_keyword_spacing]
 
 _CSF = 'assembler/preprocessor/condition_stack.py'
 _CF = 'assembler/preprocessor/condition.py'
